@@ -127,7 +127,7 @@ def predicate(ctx, optic, case, par, w):
                 ey2 = [abs(ys[k][j] / gs[k] + yp[j]) / scale_y for k in range(len(es))]
                 et2 = [abs(ts[k][j] / gs[k] + up[j]) / scale_u for k in range(len(es))]
                 if ey2[-1] < 1e-2 * max(ey[-1], et[-1]) and et2[-1] < 1e-2 * max(ey[-1], et[-1]) and \
-                        (fit_slope(es, ey2, 1e-11) or 2.0) >= 1.8:
+                        ((fit_slope(es, ey2, 1e-11) or 2.0) >= 1.8 or has_parabola):     # (F23 noise spoils the rate)
                     ctx.fail('real chief-ray values / eps converge to the paraxial chief ray (sign)', case,
                              {'real/eps': [ys[-1][j] / gs[-1], ts[-1][j] / gs[-1]], 'paraxial': [yp[j], up[j]]},
                              finding_key='chief-object-height-sign')
